@@ -40,9 +40,58 @@ def _func_dump(path, name):
     return None
 
 
+# the `note_error` shapes the model can produce (lean/Proofs/Lemmas/C15Messages.lean `shapes`, proved complete for
+# the model by `verdict_shape`): (class, message attribute) -> keyword names.  Compared with every call site of the
+# CURRENT source, so a call site that drops or adds a keyword breaks an obligation.
+SHAPES = {
+    ("Present", "missing"): [], ("IsTrue", "false"): [], ("IsFalse", "true"): [], ("Converted", "incorrect"): [],
+    ("ValueIn", "fail"): [], ("ShorterThan", "exceeded"): [], ("LongerThan", "short"): [], ("LengthBetween", "breached"): [],
+    ("ValueLessThan", "failure"): [], ("ValueAtMost", "failure"): [], ("ValueGreaterThan", "failure"): [],
+    ("ValueAtLeast", "failure"): [], ("ValueBetween", "failure_inclusive"): [], ("ValueBetween", "failure_exclusive"): [],
+    ("MapEqual", "unequal"): ["labels", "last_label"],
+    ("NotDuplicated", "failure"): ["position", "container_label"],
+    ("HasAtLeast", "failure"): ["child_label"], ("HasAtMost", "failure"): ["child_label"],
+    ("HasBetween", "exact"): ["child_label"], ("HasBetween", "range"): ["child_label"],
+    ("SetWithKnownFields", "unexpected"): ["unexpected", "n_unexpected"],
+    ("SetWithAllFields", "both"): ["n_missing", "missing", "n_unexpected", "unexpected"],
+    ("SetWithAllFields", "missing"): ["n_missing", "missing", "n_unexpected", "unexpected"],
+    ("SetWithAllFields", "unexpected"): ["n_missing", "missing", "n_unexpected", "unexpected"],
+    ("Luhn10", "invalid"): [], ("IsEmail", "invalid"): [],
+    ("URLValidator", "bad_format"): [], ("URLValidator", "blocked_scheme"): [], ("URLValidator", "blocked_part"): [],
+    ("HTTPURLValidator", "bad_format"): [], ("HTTPURLValidator", "required_part"): [], ("HTTPURLValidator", "forbidden_part"): [],
+    ("URLCanonicalizer", "bad_format"): [],
+}
+
+
+def check_call_sites():
+    """every note_error call site of the source passes exactly the keywords the model's shape has"""
+    from harness.extractors import c16
+    problems = []
+    classes, ps = c16.ast_classes()
+    problems += ps
+    seen = set()
+    for cname, info in classes.items():
+        for key, kws, star in info["calls"]:
+            if star:
+                problems.append("%s: note_error(**…) call site cannot be compared with the model's shapes" % cname)
+                continue
+            attrs = [key] if key is not None else sorted(info["messages"])
+            for attr in attrs:
+                want = SHAPES.get((cname, attr))
+                if want is None:
+                    problems.append("%s.%s: note_error call site has no shape in the model" % (cname, attr))
+                elif sorted(kws) != sorted(want):
+                    problems.append("%s.%s: call site passes keywords %r, the model's shape has %r" % (cname, attr, sorted(kws), sorted(want)))
+                seen.add((cname, attr))
+    for k in SHAPES:
+        if k not in seen:
+            problems.append("%s.%s: the model notes this message but no call site of the source emits it" % k)
+    return problems
+
+
 @extract.register("C15")
 def pins_c15():
-    problems = []
+    problems = check_call_sites()
     import flatland.validation as V
     from flatland.validation import network
     from flatland.validation.number import Luhn10  # noqa: F401
